@@ -43,6 +43,11 @@ pub struct WriterOpts {
     pub leading_junk: bool,
     /// allow a raw CR / CRLF inside a literal string to denote an LF byte (freedom 2 only)
     pub raw_cr_eol: bool,
+    /// DELIBERATELY INVALID output, used only where a property quantifies over all bytes (C08):
+    /// for some objects that are re-defined inside a new object stream, the cross-reference entry
+    /// keeps pointing at the old container, at a container that does not hold the object, or at a
+    /// container that does not exist. `expect` is then meaningless for those objects.
+    pub misdesignate: bool,
 }
 
 #[derive(Clone, Copy, Debug, PartialEq, Eq)]
@@ -957,6 +962,23 @@ pub fn write_history(ctx: &Ctx, revisions: &[Revision], opts: &WriterOpts) -> Wr
                     let at = e.stream_obj((*cid, 0), &d, &body, &marks, ObjStmBody);
                     ents.insert(*cid, Ent::Used((at - base) as u64, 0));
                     for (idx, (n, _)) in group.iter().enumerate() {
+                        if opts.misdesignate && e.d(3, "misdesignate") == 1 {
+                            ctx.count("misdesignated-compressed-object");
+                            match e.d(3, "misdesignate-how") {
+                                // no new entry: an older section (if any) keeps designating the old copy
+                                0 => {}
+                                // the container of the older copy (a stale designation), if there is one
+                                1 if layout.compressed.contains_key(n) => {
+                                    let (oc, oi) = layout.compressed[n];
+                                    ents.insert(*n, Ent::Comp(oc, oi));
+                                }
+                                // a container that does not exist
+                                _ => {
+                                    ents.insert(*n, Ent::Comp(*cid + 1000, idx as u32));
+                                }
+                            }
+                            continue;
+                        }
                         ents.insert(*n, Ent::Comp(*cid, idx as u32));
                         layout.compressed.insert(*n, (*cid, idx as u32));
                     }
@@ -1163,5 +1185,6 @@ pub fn draw_opts(ctx: &Ctx, n_revisions: usize, version: &str, binary_mark: &[u8
         object_streams: ctx.chance(SW, 2, 3, "opt-object-streams"),
         leading_junk: ctx.chance(SW, 1, 8, "opt-leading-junk"),
         raw_cr_eol: ctx.chance(SW, 1, 2, "opt-raw-cr-eol"),
+        misdesignate: false,
     }
 }
